@@ -176,6 +176,33 @@ pub fn raw_ev(log: &mut Log, bytes: &[u8], origin: &str, via: &str) {
             "vec" => probe!(Fst::new(bytes.to_vec())),
             "cow" => probe!(Fst::new(std::borrow::Cow::Borrowed(bytes))),
             "arc" => probe!(Fst::new(std::sync::Arc::<[u8]>::from(bytes))),
+            // the bytes arrive through map_data of a valid FST: still an opening of *these* bytes
+            "map_data" | "map_data_map" | "map_data_set" => {
+                let valid = {
+                    let mut b = Builder::memory();
+                    b.insert(b"k", 7).unwrap();
+                    b.into_inner().unwrap()
+                };
+                match via {
+                    "map_data" => probe!(Fst::new(valid).unwrap().map_data(|_| bytes.to_vec())),
+                    "map_data_map" => match fst::Map::new(valid).unwrap().map_data(|_| bytes.to_vec()) {
+                        Ok(m) => {
+                            let f = m.as_fst();
+                            let v = f.verify();
+                            (jok(), json!({"size": jn(f.size()), "ty": ju(f.fst_type()), "len": ju(m.len() as u64), "verify": jres(&v), "as_bytes": f.as_bytes().len()}))
+                        }
+                        Err(e) => (jopen::<()>(&Err(e)), json!({})),
+                    },
+                    _ => match fst::Set::new(valid).unwrap().map_data(|_| bytes.to_vec()) {
+                        Ok(m) => {
+                            let f = m.as_fst();
+                            let v = f.verify();
+                            (jok(), json!({"size": jn(f.size()), "ty": ju(f.fst_type()), "len": ju(m.len() as u64), "verify": jres(&v), "as_bytes": f.as_bytes().len()}))
+                        }
+                        Err(e) => (jopen::<()>(&Err(e)), json!({})),
+                    },
+                }
+            }
             "map" => match fst::Map::new(bytes) {
                 Ok(m) => {
                     let f = m.as_fst();
@@ -197,7 +224,7 @@ pub fn raw_ev(log: &mut Log, bytes: &[u8], origin: &str, via: &str) {
     });
     match r {
         Ok((open, rest)) => {
-            let mut ev = json!({"ev": "Raw", "origin": origin, "via": via, "bytes": jb(bytes), "open": open});
+            let mut ev = json!({"ev": "Raw", "origin": origin, "built": origin.starts_with("built"), "via": via, "bytes": jb(bytes), "open": open});
             if let Value::Object(m) = rest {
                 for (k, v) in m {
                     ev[k] = v;
@@ -213,7 +240,7 @@ fn le8(v: u64) -> Vec<u8> {
     v.to_le_bytes().to_vec()
 }
 
-const VIAS: &[&str] = &["slice", "vec", "cow", "arc", "map", "set"];
+const VIAS: &[&str] = &["slice", "vec", "cow", "arc", "map", "set", "map_data", "map_data_map", "map_data_set"];
 
 /// Exhaustive headers / footers over boundary values for lengths 0..=64.
 pub fn header_footer_space(log: &mut Log, r: &mut StdRng, tier: &str) {
@@ -277,6 +304,17 @@ pub fn c20(log: &mut Log, seed: u64, tier: &str) {
         raw_ev(log, &b, "random", *pick(&mut r, VIAS));
     }
     rechecksummed(log, &mut r, tier);
+    // every length 0..=40 through every way of getting bytes into an Fst
+    for len in 0..=40usize {
+        for via in VIAS {
+            raw_ev(log, &vec![0u8; len], "zeros", via);
+            let mut b: Vec<u8> = (0..len).map(|_| r.gen()).collect();
+            if len >= 8 {
+                b[..8].copy_from_slice(&le8(*pick(&mut r, &[1u64, 2, 3])));
+            }
+            raw_ev(log, &b, "short", via);
+        }
+    }
     // every truncation and single-byte mutations of valid FSTs
     let nf = if thorough(tier) { 24 } else { 8 };
     for (bytes, _items) in valid_small_fsts(&mut r, nf) {
@@ -408,6 +446,25 @@ pub fn c08(log: &mut Log, seed: u64, tier: &str) {
             file_ev(log, &bytes, &items, 0, nodes as i64, name);
         }
     }
+    // (1b) ... independent of how the data was chunked while being written: the same builds through
+    // sinks that accept prefixes and interrupt (every byte still reaches the sink exactly once)
+    use crate::scen_sink::{build_through, Policy};
+    for (i, (name, keys)) in ins.iter().filter(|(_, k)| k.len() <= 300).take(if thorough(tier) { 120 } else { 40 }).enumerate() {
+        let items = assign(keys.clone(), *pick(&mut r, VAL_MODES), &mut r);
+        let policies = [Policy::Cap(1 + i % 9), Policy::Random { short: 40, intr: 15 }, Policy::IntrAt(i % 7), Policy::ShortAt(i % 11),
+                        Policy::Random { short: 0, intr: 30 }];
+        let policy = policies[i % policies.len()].clone();
+        let what = format!("{} through {:?}", name, policy);
+        match build_through(&items, false, policy, seed + i as u64) {
+            Ok(bytes) => {
+                raw_ev(log, &bytes, &format!("built:{}", what), "slice");
+                if bytes.len() < 3000 {
+                    file_ev(log, &bytes, &items, 0, -1, &what);
+                }
+            }
+            Err(e) => log.ev(json!({"ev": "Panic", "in": "build_through", "msg": e, "origin": what})),
+        }
+    }
     // (2) the crate's CRC of arbitrary data for lengths across the 16-byte fast path boundary
     let lens: Vec<usize> = (0..=80).chain(vec![95, 96, 97, 127, 128, 129, 255, 256, 257, 1000, 1023, 1024, 1025, 4095, 4096]).collect();
     for &n in &lens {
@@ -459,6 +516,73 @@ pub fn c08(log: &mut Log, seed: u64, tier: &str) {
 pub fn c10_raw(log: &mut Log, seed: u64, tier: &str) {
     let mut r = rng(seed, 10);
     header_footer_space(log, &mut r, tier);
+}
+
+/// The reader's node-level view of a file: every node reachable from the root as the public
+/// `raw::Node` API presents it (C10, extras).  TLC compares it with FstFormat!DecodeNode.
+pub fn view_ev(log: &mut Log, bytes: &[u8], origin: &str) {
+    let got = guard(|| {
+        let fst = match Fst::new(bytes.to_vec()) {
+            Ok(f) => f,
+            Err(_) => return None,
+        };
+        let root = fst.root().addr();
+        let mut seen = std::collections::BTreeSet::new();
+        let mut todo = vec![root];
+        let mut nodes = vec![];
+        while let Some(a) = todo.pop() {
+            if !seen.insert(a) {
+                continue;
+            }
+            let n = fst.node(a);
+            let mut trans = vec![];
+            for (i, t) in n.transitions().enumerate() {
+                let t2 = n.transition(i);
+                assert!(t2.inp == t.inp && t2.out == t.out && t2.addr == t.addr && n.transition_addr(i) == t.addr, "transition(i) differs from transitions()");
+                trans.push(json!([t.inp, ju(t.out.value()), jn(t.addr)]));
+                todo.push(t.addr);
+            }
+            let find: Vec<Value> = (0..=255u8).filter_map(|b| n.find_input(b).map(|i| json!([b, jn(i)]))).collect();
+            nodes.push(json!({"addr": jn(n.addr()), "final": n.is_final(), "fout": ju(n.final_output().value()), "len": jn(n.len()),
+                "empty": n.is_empty(), "trans": trans, "find": find, "slice": jb(n.as_slice()), "state": n.state()}));
+        }
+        Some((root, nodes, fst.len(), fst.size(), fst.fst_type()))
+    });
+    match got {
+        Ok(Some((root, nodes, len, size, ty))) => log.ev(json!({"ev": "View", "origin": origin, "bytes": jb(bytes), "root": jn(root), "nodes": nodes,
+            "len": jn(len), "size": jn(size), "ty": ju(ty)})),
+        Ok(None) => {}
+        Err(p) => log.ev(json!({"ev": "Panic", "in": "View", "origin": origin, "msg": p, "bytes": jb(bytes)})),
+    }
+}
+
+/// Views of the specification's own files (versions 1, 2, 3) and of built files.
+pub fn c10_view(log: &mut Log, files: &str, seed: u64, tier: &str) {
+    let mut r = rng(seed, 1010);
+    if !files.is_empty() {
+        let text = std::fs::read_to_string(files).unwrap_or_else(|e| {
+            eprintln!("cannot read {}: {}", files, e);
+            std::process::exit(2)
+        });
+        for line in text.lines().filter(|l| !l.trim().is_empty()) {
+            let v: Value = serde_json::from_str(line).unwrap_or_else(|e| {
+                eprintln!("bad replay line: {}", e);
+                std::process::exit(2)
+            });
+            let bytes: Vec<u8> = v["bytes"].as_array().unwrap().iter().map(|x| x.as_u64().unwrap() as u8).collect();
+            view_ev(log, &bytes, &format!("spec-encoded v{}", v["version"]));
+        }
+    }
+    for (name, keys) in inputs(&mut r, tier, true) {
+        if keys.len() > 600 {
+            continue;
+        }
+        let mode = *pick(&mut r, VAL_MODES);
+        let items = assign(keys, mode, &mut r);
+        let geo = *pick(&mut r, GEOMETRIES);
+        let (bytes, _) = build_raw(&items, 0, false, geo);
+        view_ev(log, &bytes, &format!("built {}:{:?}", name, mode));
+    }
 }
 
 pub fn _unused(_: &Sess) {}
